@@ -795,6 +795,9 @@ impl<'a> Ctx<'a> {
 
     fn comp(&mut self, depth: usize) -> Node {
         let mut kinds = vec!["plain", "plain", "multi", "mchild"];
+        if self.f.model && !self.in_template {
+            kinds.push("mnest");
+        }
         if self.f.dyn_slots {
             kinds.extend(["dyn", "dyn", "dynnk", "dynt", "dynn"]);
         }
@@ -863,6 +866,12 @@ impl<'a> Ctx<'a> {
                     children.push(Node::El { tag: tag.into(), attrs: a, children: vec![Node::Text(self.text_parts())] });
                 }
                 Node::El { tag: "multi".into(), attrs, children }
+            }
+            "mnest" => {
+                // a child that writes to MEMBERS of a model-bound object property
+                let o = if self.r.chance(0.7) { id("obj") } else { self.object_leaf() };
+                attrs.push(Attr { name: "model:p".into(), val: AttrVal::Bind(o) });
+                Node::El { tag: "mnest".into(), attrs, children: vec![] }
             }
             "mchild" => {
                 let (e, ok) = self.model_expr();
@@ -1187,6 +1196,7 @@ pub fn catalogue_file(kind: &str) -> TFile {
         "mchild" => "<text>V:{{val}}</text>",
         "dyn" => "<text>D:{{p}}</text><block wx:for=\"{{items}}\" wx:key=\"k\"><slot sv=\"{{item}}\" si=\"{{index}}\"/></block>",
         "dynnk" => "<text>E:{{p}}</text><block wx:for=\"{{items}}\"><slot sv=\"{{item}}\" si=\"{{index}}\"/></block>",
+        "mnest" => "<text>W:{{p.x}}:{{p.k}}</text><input model:value=\"{{p.x}}\"/><input model:value=\"{{p.y.z}}\"/>",
         "dynn" => "<text>N:{{p}}</text><view id=\"na\"><slot name=\"a\" sv=\"{{p}}\"/></view><view id=\"nb\"><slot name=\"b\" sv=\"{{p}}\"/></view><slot sv=\"{{p}}\"/>",
         "dynt" => "<template name=\"row\"><text>R:{{x}}:{{v}}</text><slot sv=\"{{x || v || p}}\" si=\"{{k}}\"/></template><text>T:{{p.k}}</text><template is=\"row\" data=\"{{...p}}\"/>",
         _ => "",
@@ -1201,6 +1211,7 @@ pub fn catalogue_component(kind: &str) -> Value {
         "mchild" => json!({"is": "mchild", "path": "comp/mchild", "properties": {"val": {"type": "any", "value": null}, "nval": {"type": "any", "value": null}}}),
         "dyn" => json!({"is": "dyn", "path": "comp/dyn", "options": {"dynamicSlots": true}, "properties": {"items": {"type": "any", "value": []}, "p": {"type": "any", "value": null}}}),
         "dynnk" => json!({"is": "dynnk", "path": "comp/dynnk", "options": {"dynamicSlots": true}, "properties": {"items": {"type": "any", "value": []}, "p": {"type": "any", "value": null}}}),
+        "mnest" => json!({"is": "mnest", "path": "comp/mnest", "properties": {"p": {"type": "any", "value": null}}}),
         "dynn" => json!({"is": "dynn", "path": "comp/dynn", "options": {"dynamicSlots": true}, "properties": {"p": {"type": "any", "value": null}}}),
         "dynt" => json!({"is": "dynt", "path": "comp/dynt", "options": {"dynamicSlots": true}, "properties": {"p": {"type": "any", "value": null}}}),
         _ => json!({}),
